@@ -168,3 +168,18 @@ Proof.
   - exact (walk_dirs_inside w Hw g cwd root_arg folder top d fs Hg Hc Hr Hin).
   - exact (walk_found_inside w Hw g cwd root_arg folder top d fs f Hg Hc Hr Hin Hf).
 Qed.
+
+(** The working directory at call time is irrelevant (os.chdir between construction and use changes nothing):
+    the containment theorem holds with the two working directories kept apart. *)
+Theorem c18_cwd_at_call_irrelevant :
+  forall g con cwd0 cwd1 root_arg path, is_abs cwd0 = true ->
+    resolve2 g con cwd0 cwd1 root_arg path = resolve g con cwd0 root_arg path.
+Proof. exact resolve_cwd_at_call_irrelevant. Qed.
+
+(** What [inside] means for the OS: following the segments of an inside path from '/' never goes up, arrives at the
+    root directory and every later step is at or below it. *)
+Theorem c18_inside_walk_stays_in_root : forall root a, inside root a ->
+  exists rest,
+    segs a = segs root ++ rest /\
+    forall k, follow [] (segs root ++ firstn k rest) = Some (rev (firstn k rest) ++ rev (segs root)).
+Proof. exact inside_walk_stays_in_root. Qed.
